@@ -115,6 +115,26 @@ func init() {
 	}
 }
 
+func init() {
+	specs["C18"] = func(tier string) (*Plan, error) {
+		u := staticUnit("rapidproto", "rapidproto", "rapidproto_c18.go.txt")
+		return &Plan{
+			LoadDir:  repoDir,
+			Patterns: []string{"./rapidproto"},
+			Units:    []*Unit{u},
+			Regex:    "^VH_C18_",
+			Cfg:      sym.Config{MaxLoop: 40},
+			Bounds: map[string]string{
+				"draws":       "every value a rapid generator may return: full range of the integer/bool/float generators, XRange(lo,hi) anywhere in [lo,hi], strings and byte slices of 0..3 bytes, slices of 1..2 elements",
+				"descriptors": "one field at a time with a symbolic Kind (all 16 scalar kinds), an enum with two arbitrary distinct non-zero numbers besides 0, a repeated int32 field, a self-recursive message; nesting depth symbolic in 0..10",
+				"claimed":     "Timestamp/Duration validity for every draw, enum numbers declared, FieldMask paths stored, no Fatalf for legal scalar kinds, NoEmptyLists, DisallowNilMessages, termination on a recursive type within the depth limit",
+				"outside":     "rapid's own engine and the UTF-8 validity of rapid.String, genAny (extensions, registry and proto.Marshal), maps, field mappers, that protobuf-go accepts the result (follows from the claimed facts plus protobuf-go)",
+			},
+			Stubs: []string{"pgregory.net/rapid generators -> opaque descriptions; Draw -> fresh symbol constrained to the generator's documented range", "rapid.T.Fatalf / gotest.tools assert -> generator failure (violation)", "protoreflect Message/List/Descriptor arguments -> harness-level recorder stubs", "fmt.Sprintf -> opaque string", "protoimpl.X.NewError -> opaque error"},
+		}, nil
+	}
+}
+
 func packageInitHook(e *sym.Exec, pkg *ssa.Package) {
 	var names []string
 	for n := range pkg.Members {
